@@ -153,6 +153,7 @@ typedef struct
   INPUT* in; int pos;
   const char* sched; int spos;       // per-call actions: . ok  n not-ready  s stall 400s  S stall 2000s  e iterator error
   uint64_t mask; int use_mask;       // alternative: not-ready at the k-th call overall (bit k), k < 64
+  int stall_each;                    // with use_mask: every call that is not answered not-ready takes that many (virtual) seconds
   int total_calls;                   // over the life of the iterator
   int ended;                         // in the current API call: block loop has seen END/ok -> later calls come from rule evaluation
   int nr_in_eval;                    // a not-ready was delivered to rule evaluation
@@ -167,7 +168,7 @@ static YR_MEMORY_BLOCK* it_next(YR_MEMORY_BLOCK_ITERATOR* it)
   ITCTX* c = (ITCTX*) it->context;
   char act = '.';
   int k = c->total_calls++;
-  if (c->use_mask) { if (k < 64 && ((c->mask >> k) & 1)) act = 'n'; }
+  if (c->use_mask) { if (k < 64 && ((c->mask >> k) & 1)) act = 'n'; else if (c->stall_each && c->scanner) c->scanner->stopwatch.ts_start.tv_sec -= c->stall_each; }
   else if (c->sched && c->sched[c->spos]) act = c->sched[c->spos++];
   if (act == 'n') { it->last_error = ERROR_BLOCK_NOT_READY; if (c->ended) c->nr_in_eval = 1; return NULL; }
   if (act == 'e') { it->last_error = ERROR_COULD_NOT_READ_PROCESS_MEMORY; return NULL; }
